@@ -81,9 +81,17 @@ class SymArray(object):
         self.data.extend(list(arr))
 
     def __getitem__(self, i):
+        if isinstance(i, slice):
+            return self.data[i]
         return self.data[int(i)]
 
     def __setitem__(self, i, v):
+        if isinstance(i, slice):
+            idx = range(*i.indices(len(self.data)))
+            vals = list(v) if hasattr(v, "__len__") else [v] * len(idx)
+            for k, j in enumerate(idx):
+                self.data[j] = vals[k]
+            return
         self.data[int(i)] = v
 
     def __len__(self):
@@ -94,12 +102,17 @@ class RecPA(object):
     """record particle array for the lowered NNPS / domain code"""
     gpu = None
 
-    def __init__(self, name, props, stride=None, constants=None):
+    def __init__(self, name="", props=None, stride=None, constants=None,
+                 **kw):
         self.name = name
         self.properties = {}
         self.stride = dict(stride or {})
         self.constants = dict(constants or {})
         self.default_values = {}
+        if props is None:
+            # ParticleArray(x=None, y=None, z=None): an empty array with the
+            # default bookkeeping properties
+            props = dict((k, []) for k in list(kw) + ["tag", "gid", "pid"])
         for k, vals in props.items():
             a = SymArray()
             a.set_data(vals)
@@ -112,6 +125,9 @@ class RecPA(object):
         if real:
             return self.num_real_particles
         return len(self.properties["tag"].data)
+
+    def __bool__(self):
+        return True
 
     def get_carray(self, name):
         return self.properties[name]
@@ -164,6 +180,22 @@ class RecPA(object):
         idx = [int(i) for i in (indices.data if hasattr(indices, "data")
                                 else indices)]
         names = list(self.properties) if props is None else list(props)
+        if dest_array is not None:
+            # append the selected particles to dest_array (only `names`)
+            if not idx:
+                return dest_array
+            start = dest_array.get_number_of_particles()
+            dest_array.resize(start + len(idx))
+            for k in names:
+                st = self.stride.get(k, 1)
+                src = self.properties[k].data
+                dst = dest_array.properties[k].data      # KeyError if absent
+                for q, i in enumerate(idx):
+                    dst[(start + q) * st:(start + q + 1) * st] = \
+                        src[i * st:(i + 1) * st]
+            if align:
+                dest_array.align_particles()
+            return dest_array
         for extra in ("tag",):
             if extra not in names:
                 names.append(extra)
@@ -186,11 +218,49 @@ class RecPA(object):
         new.num_real_particles = 0
         return new
 
+    def empty_clone(self, props=None):
+        names = list(self.properties) if props is None else list(props)
+        for extra in ("tag", "gid", "pid"):
+            if extra in self.properties and extra not in names:
+                names.append(extra)
+        new = RecPA(self.name, dict((k, []) for k in names),
+                    stride=dict((k, v) for k, v in self.stride.items()
+                                if k in names))
+        return new
+
+    def resize(self, n):
+        n = int(n)
+        for k, a in self.properties.items():
+            st = self.stride.get(k, 1)
+            a.data = (a.data + [self.default_values.get(k, 0.0)] * n * st)[
+                :n * st]
+        self.num_real_particles = min(self.num_real_particles, n)
+
+    def ensure_properties(self, src, props=None):
+        names = list(src.properties) if props is None else list(props)
+        n = self.get_number_of_particles()
+        for k in names:
+            if k not in self.properties:
+                st = src.stride.get(k, 1)
+                a = SymArray()
+                a.set_data([0.0] * n * st)
+                self.properties[k] = a
+                if st != 1:
+                    self.stride[k] = st
+
     def append_parray(self, other, align=True, update_constants=False):
         n_old = self.get_number_of_particles()
         n_new = other.get_number_of_particles()
         if n_new == 0:
             return 0
+        for k in other.properties:
+            if k not in self.properties:
+                st = other.stride.get(k, 1)
+                a = SymArray()
+                a.set_data([0.0] * n_old * st)
+                self.properties[k] = a
+                if st != 1:
+                    self.stride[k] = st
         for k, a in self.properties.items():
             st = self.stride.get(k, 1)
             if k in other.properties:
@@ -221,11 +291,26 @@ class Wrapper(object):
         self.pa.remove_tagged_particles(tag)
 
 
+class _NP(object):
+    """numpy as seen by the lowered code"""
+
+    @staticmethod
+    def finfo(t):
+        return numpy.finfo(float)
+
+    @staticmethod
+    def asarray(x, *a, **k):
+        return list(x)
+
+    def __getattr__(self, n):
+        return getattr(numpy, n)
+
+
 def base_module():
     b = os.path.join(common.REPO, "pysph", "base")
     M = cy2py.Module(extra=dict(
         UINT_MAX=UINT_MAX, fmax=MATH_TABLE["max"], fmin=MATH_TABLE["min"],
-        PyList_GetItem=lambda l, i: l[int(i)], np=numpy,
+        PyList_GetItem=lambda l, i: l[int(i)], np=_NP(),
         cPoint_new=lambda x, y, z: types.SimpleNamespace(x=x, y=y, z=z),
         cIntPoint_new=lambda x, y, z: types.SimpleNamespace(x=x, y=y, z=z),
         cIntPoint=lambda x=0, y=0, z=0: types.SimpleNamespace(x=x, y=y, z=z),
